@@ -42,10 +42,12 @@ ASSUMPTIONS = [
     "judged there only when B is a multiple of n or covers the flow",
 ]
 FAULT_KINDS = ["request-off-block-boundary", "fill-after-complete-block", "request-with-nothing-filled",
-               "split-block-not-dividing", "double-request", "sibling-fill-request-branch-stops"]
+               "split-block-not-dividing", "double-request", "sibling-fill-request-branch-stops",
+               "wrapped-element-signals-LenaStopFill"]
 EXPECTED_PROBES = ["push-buffer_output-overflow", "push-buffer_input-overflow", "remainder-yielded",
                    "split-B-coprime-to-n", "split-B-multiple-of-n", "fillrequestseq-push", "reset-on",
-                   "watchdog-guarded-calls"]
+                   "watchdog-guarded-calls", "element-stops-in-the-last-slot-of-a-block",
+                   "post-element-sees-several-results-of-one-request"]
 
 BUDGET = 200000
 
@@ -58,7 +60,7 @@ class ProbeFCR(object):
     """fill/compute probe with reset; results name everything filled since the
     last reset."""
 
-    def __init__(self, log, name, results=1):
+    def __init__(self, log, name, results=1, stop_at=None):
         self.log = log
         self.name = name
         self.filled = []
@@ -66,8 +68,12 @@ class ProbeFCR(object):
         self.results = results
         self.ncomp = 0
         self.nreset = 0
+        self.stop_at = stop_at     # the element itself signals LenaStopFill at its k-th fill
 
     def fill(self, v):
+        if self.stop_at is not None and len(self.all_fills) >= self.stop_at:
+            self.log.ev("stopfill", self.name, v.serial)
+            raise lena.core.LenaStopFill()
         self.log.ev("fill", self.name, v.serial)
         self.filled.append(v.serial)
         self.all_fills.append(v.serial)
@@ -153,6 +159,17 @@ def gen_scenario(tape):
         sc.sib_after = tape.draw(2, "sib-after")
         # a fill/request sibling in front of the adapter that signals LenaStopFill after k values
         sc.stopper = tape.draw(6, "stopper-k") if tape.chance(1, 4, "stopping-fr-sibling") else None
+    # the wrapped element itself signals LenaStopFill at its k-th fill (push and Split drivers)
+    sc.stop_at = None
+    if sc.kind in ("fc", "fr") and sc.driver in ("push", "split") and tape.chance(1, 5, "element-stops"):
+        sc.stop_at = tape.draw(sc.len + 1, "stop-at", sweep=True)
+    # a post-element of FillRequestSeq that relates the results of one request to each other
+    sc.post_reverse = sc.wrapper == "seq" and tape.chance(1, 3, "post-reverse")
+    if sc.stop_at is not None:
+        # with buffer_input the element would be filled (and would stop) inside request():
+        # what request() owes its caller then is not stated anywhere, so it is not generated
+        sc.buffer = "output"
+        sc.remainder = False
     # request points for the push history: position p means "after p fills"
     sc.reqs = []
     if sc.driver == "push":
@@ -167,9 +184,9 @@ def gen_scenario(tape):
 
 def make_probe(sc, log):
     if sc.kind == "fc":
-        return ProbeFCR(log, "el", sc.results)
+        return ProbeFCR(log, "el", sc.results, getattr(sc, "stop_at", None))
     if sc.kind == "fr":
-        return ProbeFRR(log, "el", sc.results)
+        return ProbeFRR(log, "el", sc.results, getattr(sc, "stop_at", None))
     return ProbeRunEl(log, "el", sc.per_value)
 
 
@@ -192,6 +209,8 @@ def wrap(sc, adapter, log):
     els.append(adapter)
     els += [ProbeCall(log, "post%d" % j, fn=lambda r, j=j: ("post%d" % j, r))
             for j in range(sc.npost)]
+    if getattr(sc, "post_reverse", False):
+        els.append(lena.flow.Reverse())
     # the outer reset flag concerns only FillRequestSeq.run (reset after each outer block);
     # in a push history fill and request go straight to the inner adapter
     outer_reset = bool(sc.outer_reset and sc.driver == "push")
@@ -223,6 +242,22 @@ def model_blocks(sc, values):
                 out.extend(("el", j, tuple(filled)) for j in range(sc.results))
             break
         out.extend(("el", j, tuple(filled)) for j in range(sc.results))
+        if sc.reset:
+            filled = []
+    return out
+
+
+def model_per_block(sc, values):
+    """list of the result lists of the complete blocks (post-elements applied)"""
+    n = sc.n
+    out = []
+    filled = []
+    i = 0
+    while i + n <= len(values):
+        block = values[i:i + n]
+        i += n
+        filled.extend(block)
+        out.append(apply_post(sc, [("el", j, tuple(filled)) for j in range(sc.results)]))
         if sc.reset:
             filled = []
     return out
@@ -303,6 +338,10 @@ def drive_run(sc, res, values, cfg):
                  "budget of %d lines" % (len(values), BUDGET))
         return
     exp = apply_post(sc, model_blocks(sc, values))
+    if getattr(sc, "post_reverse", False) and not sc.remainder:
+        # FillRequestSeq.run requests after every value (outer bufsize 1): Reverse sees the results
+        # of one block at a time
+        exp = [x for b in model_per_block(sc, values) for x in reversed(b)]
     log.ev("result", "run", summarize(got))
     nfull = len(values) // sc.n
     if nfull:
@@ -347,9 +386,16 @@ def drive_push(sc, res, values, cfg):
         res.probe("fillrequestseq-push")
     got = []
     reqs = list(sc.reqs)
-    res.say("push history: request() after fills %r, then a final request()" % (reqs,))
+    res.say("push history: request() after fills %r, then a final request()%s%s" % (
+        reqs, "" if sc.stop_at is None else "; the element signals LenaStopFill at its fill #%d" % sc.stop_at,
+        "; Reverse as last post-element" if sc.post_reverse else ""))
     n = sc.n
     since = 0   # fills since the last request
+    accepted = len(values) if sc.stop_at is None else min(sc.stop_at, len(values))
+    blocks = model_per_block(sc, values[:accepted])
+    expected = []       # what the request() calls must have yielded so far
+    emitted = [0]       # complete blocks whose results were already requested
+    stopped = [False]
 
     def do_request(pos, final=False):
         log.ev("op", "request", pos)
@@ -364,6 +410,15 @@ def drive_push(sc, res, values, cfg):
             return False
         log.ev("result", "request", summarize(r))
         got.extend(r)
+        complete = min(pos, accepted) // n
+        mine = [x for b in blocks[emitted[0]:complete] for x in b]
+        if sc.post_reverse:
+            # Reverse sees the whole flow of results of this request
+            mine.reverse()
+            if len(mine) >= 2:
+                res.probe("post-element-sees-several-results-of-one-request")
+        expected.extend(mine)
+        emitted[0] = max(emitted[0], complete)
         bi, bo = occupancy(adapter, n)
         if bi >= n or bo > 0:
             res.viol("C16:FillRequest:push:%s:buffers-not-drained-by-request" % cfg,
@@ -388,16 +443,27 @@ def drive_push(sc, res, values, cfg):
         if since >= n:
             res.fault("fill-after-complete-block")
             res.probe("push-buffer_%s-overflow" % sc.buffer)
-        _, hang = guarded(res, "fill", lambda: obj.fill(Tok(s)))
+        def fill_one(s=s):
+            try:
+                obj.fill(Tok(s))
+            except lena.core.LenaStopFill:
+                stopped[0] = True
+        _, hang = guarded(res, "fill", fill_one)
         if hang:
             res.viol("C16:FillRequest:push:%s:fill-after-%s:hang" % (
                 cfg, "full-block" if since >= n else "partial-block"),
                 "fill(#%d) did not return within the step budget (%d fills since the last "
                 "request, block size %d)" % (s, since, n))
             return
+        if stopped[0]:
+            # as Split does: no more fills, one request
+            res.fault("wrapped-element-signals-LenaStopFill")
+            if pos % n == n - 1:
+                res.probe("element-stops-in-the-last-slot-of-a-block")
+            break
         pos += 1
         since += 1
-    while ri < len(reqs):
+    while ri < len(reqs) and not stopped[0]:
         if not do_request(pos):
             return
         ri += 1
@@ -413,13 +479,13 @@ def drive_push(sc, res, values, cfg):
         res.viol("C16:FillRequest:push:%s:values-not-filled-exactly-once-in-order" % cfg,
                  "the wrapped element was filled with %r; the flow is %r" % (fills, values))
         return
-    if len(fills) + held != len(values):
+    if len(fills) + held != pos:
         res.viol("C16:FillRequest:push:%s:values-lost" % cfg,
                  "%d values were filled, the element saw %d and %d are buffered"
-                 % (len(values), len(fills), held))
+                 % (pos, len(fills), held))
         return
     if not sc.remainder:
-        exp = apply_post(sc, model_blocks(sc, values))
+        exp = expected
         if got != exp:
             res.viol("C16:FillRequest:push:%s:results-differ-from-run" % cfg,
                      "fill/request history (requests after %r) gave %r; run over the whole flow "
@@ -471,6 +537,10 @@ def drive_split(sc, res, values, cfg):
         return
     if sc.kind == "run" and not (B is None or B >= len(values) or B % n == 0):
         return
+    acc_n = len(values) if getattr(sc, "stop_at", None) is None else min(sc.stop_at, len(values))
+    if acc_n < len(values):
+        res.fault("wrapped-element-signals-LenaStopFill")
+        values = values[:acc_n]
     exp = model_blocks(sc, values)
     if got != exp:
         res.viol("C16:FillRequest:split:%s:%s-element:results-differ-from-run" % (cfg, sc.kind),
